@@ -38,10 +38,11 @@ class World:
         "a propagator built from a RateMatrix may either follow later edits or keep the rates it was built with; both are accepted",
         "only binary-exact time steps are required to be accepted as sub-axes; for inexact steps a refusal is tolerated",
     ]
-    rule = ("program = seeded list of set_rate / make_prop / propagate / prop_matrix ops on one shared RateMatrix "
-            "(dim 2..6, swarm: generic, chain with equal rates (defective), cyclic (complex spectrum), zero rows); "
-            "non-trivial = >=1 accepted set_rate followed by >=1 propagate or prop_matrix; "
-            "distinct = distinct abstract transitions (dim, generator class, #edits bucket, prop state, op kind, outcome)")
+    rule = ("program = seeded list of set_rate (incl. re-assignment, zero, refused diagonal / out-of-range / non-real assignments), "
+            "make_prop, propagate and prop_matrix (coarser steps, shifted and unaligned starts, non-zero start of the main axis, "
+            "perturbative corrections) ops on one shared RateMatrix (dim 2..6, swarm: generic, equal-rate chain (defective), cyclic "
+            "(complex spectrum), sparse, from data); non-trivial = >=1 accepted set_rate followed by >=1 propagate or prop_matrix; "
+            "distinct = distinct event-log digests among non-trivial runs")
 
     # ------------------------------------------------------------------ gen
     def gen(self, rng, tier):
